@@ -124,13 +124,12 @@ func spinningFrame(dump string) string {
 		if !(strings.Contains(head, "[running") || strings.Contains(head, "[runnable")) {
 			continue
 		}
+		// the innermost pat-go frame on the running goroutine's stack: a call into pat-go that has not returned. Frames of
+		// the monitor ABOVE it are callbacks pat-go invoked (a cache, a reader, a wrapped issuer): a loop around such a
+		// callback spins inside pat-go, not inside the monitor
 		for _, m := range reFrame.FindAllStringSubmatch(g, -1) {
-			fn := m[1]
-			switch {
-			case strings.HasPrefix(fn, "github.com/cloudflare/pat-go/"):
+			if fn := m[1]; strings.HasPrefix(fn, "github.com/cloudflare/pat-go/") {
 				return fn
-			case strings.HasPrefix(fn, "verifharness/"):
-				return ""
 			}
 		}
 	}
